@@ -582,10 +582,20 @@ def run(ck):
             # a cold start matters through the lazily initialised tables only: one request per way of reaching them
             cold_menu = (0, 1, 3, 5, 6)
             cc = [c for c in combos if all(i in cold_menu for i in c)]
+        if ck.tier == "thorough":
+            # three preemptions for the pairs among the first six requests (the ones that share the cache file, the
+            # lazies and the copy loop), two for the rest: the full menu at bound 3 does not finish in hours
+            deep = [c for c in cc if all(i < 6 for i in c)]
+            rest = [c for c in cc if c not in deep]
+            for ch in core.chunks(deep, core.NPROC * 2):
+                shards.append((cold, ch, 3))
+            for ch in core.chunks(rest, core.NPROC):
+                shards.append((cold, ch, 2))
+            continue
         for ch in core.chunks(cc, core.NPROC):
             shards.append((cold, ch, bound))
     if ck.tier == "thorough":
-        triples = [c for c in itertools.combinations_with_replacement(range(6), 3)]
+        triples = [c for c in itertools.combinations_with_replacement(range(5), 3)]
         for cold in (True, False):
             for ch in core.chunks(triples, core.NPROC):
                 shards.append((cold, ch, 2))
@@ -604,7 +614,7 @@ def run(ck):
     fitems += [("fork", "stalled", ()), ("thread", "stalled", ()), ("fork", "stalled-tls", ()), ("thread", "stalled-tls", ())]
     ck.pmap(_shard_fork, core.chunks(fitems, core.NPROC))
     ck.notes.append("schedules explored: %d" % p.extra.get("schedules", 0))
-    ck.rule = ("all unordered pairs (thorough: also triples over the first 6) of a %d-request menu x {cold start with lazies reset, warm}, every interleaving with <= %d preemptions; scheduling points at cache-file operations, directory enumeration and every traced line "
+    ck.rule = ("all unordered pairs (thorough: also triples over the first 5, bound 2; bound 3 for pairs among the first six requests) of a %d-request menu x {cold start with lazies reset, warm}, every interleaving with <= %d preemptions; scheduling points at cache-file operations, directory enumeration and every traced line "
                "of the lazy initialisers, cache load/save, the copy loop and the HTTP header slurp; plus real forking and threading servers with 3 clients released in all 6 orders x service_actions() positions; "
                "distinct = (start state, combination, per-client answers, verdict)" % (n, bound))
     ck.bounds = {"preemptions": bound, "menu": n, "server_cases": len(fitems)}
